@@ -244,7 +244,8 @@ func (x *Explorer) record(e *Exec, end pathEnd, covers map[string]bool) {
 			x.res.Budget = append(x.res.Budget, end.msg)
 		}
 	}
-	if end.kind == "done" {
+	if end.kind == "done" || len(e.viol) > 0 {
+		// labels on a path that ran to completion, or on which a counterexample was produced, are reachable
 		for c := range e.covers {
 			covers[c] = true
 		}
